@@ -2,15 +2,15 @@ SETUP = ("cd /verif/vx && CARGO_NET_OFFLINE=true cargo build --offline --release
          "RUSTUP_TOOLCHAIN=1.98.1-x86_64-unknown-linux-gnu CARGO_NET_OFFLINE=true cargo build --offline --release")
 HOOKS = {
     "guard": "unhindered_ec_verif",
-    "enable": "RUSTFLAGS='--cfg unhindered_ec_verif' (no hook commits exist yet: Verus works on text extracted from /repo, Kani harnesses use the public API)",
+    "enable": "RUSTFLAGS='--cfg unhindered_ec_verif' (set by bin/check for the Kani harness crate, the replay binary and the C19 snippet crate; the Verus layer works on text extracted from /repo and needs no hook)",
     "baseline_off_cmd": "cd /repo && cargo nextest run --workspace --no-fail-fast --offline || cargo test --workspace --no-fail-fast --offline",
-    "source_commits": [],
+    "source_commits": ["f83a4027d1bb1b2a38a47152584fc235cf9b1ad7"],
     "add_only": True,
 }
 ENGINES = [
-    {"name": "kani", "path": "bin/check", "serves_properties": ["C04", "C06", "C07", "C10", "C11", "C12", "C13", "C14", "C15", "C16", "C17", "C18"],
+    {"name": "kani", "path": "bin/check", "serves_properties": ["C01", "C02", "C03", "C04", "C05", "C06", "C07", "C10", "C11", "C12", "C13", "C14", "C15", "C16", "C17", "C18", "C19"],
      "kind_free_text": "Kani 0.68 / CBMC 6.11 harness crate (kani/src) built against /repo's crates on every run; bounded stand-in and counterexample generator; replay binary kh-replay re-runs a counterexample on the stable toolchain"},
-    {"name": "verus", "path": "bin/check", "serves_properties": ["C01", "C02", "C03", "C04", "C05", "C08", "C13", "C14", "C15"],
+    {"name": "verus", "path": "bin/check", "serves_properties": ["C01", "C02", "C03", "C04", "C05", "C06", "C07", "C08", "C10", "C13", "C14", "C15", "C16", "C19"],
      "kind_free_text": "contract templates (specs/*.vrs) whose holes are filled with the real items/function bodies of /repo by the vx extractor on every run; Verus 0.2026.09.13 (Z3) discharges every obligation"},
 ]
 NOTES = ("Technique family: contract-based deductive verification of the real code. exit 2 = undecided (lost anchor, unsupported construct, "
@@ -100,7 +100,11 @@ CLAIMS["C06"] = kclaim(
     "unreachable!() is reachable.",
     note=KANI_NOTE + " Lexicase beyond one considered case is outside CBMC's reach (out of memory at 2 cases, DESIGN §6 C08).")
 CLAIMS["C07"] = kclaim(
-    "Best/Worst return a maximal/minimal individual (population <= 3, thorough 5; all i64 values). Tournament, for every random stream: the winner is at least as good as "
+    "Verus (any individual type with a lawful total order, every population, every tournament size): the real select() bodies of Best / Worst / Random / Tournament at Vec<I> are "
+    "proved to return a maximal / minimal member, the member at the drawn position, resp. the best of the k pairwise distinct members the stream draws (TournamentSizeError(k, n) exactly "
+    "when n < k; Best / Worst leave the stream untouched); lemmas derive that the winner is at least as good as k-1 OTHER members, that k = n gives a maximal member and that k = 1 returns "
+    "the one drawn member. Std's Iterator::max / min and rand's choose / choose_multiple are trusted stand-ins (their bodies are those calls). "
+    "Kani on the compiled code with the real rand sampler: Best/Worst return a maximal/minimal individual (population <= 3, thorough 5; all i64 values). Tournament, for every random stream: the winner is at least as good as "
     "k-1 OTHER members (refutes sampling with replacement and min-for-max), k = population size gives a maximal individual, k = 1 reaches every individual, and with distinct "
     "values the second-worst individual can win a binary tournament.",
     note=KANI_NOTE + " NOT decided: that every k-subset is equally likely (the exact law C(r-1,k-1)/C(n,k)) — that is rand's choose_multiple contract, assumed; what is "
@@ -180,7 +184,7 @@ NOT_APPLICABLE = {
 }
 
 VK_TECH = "Verus contracts on the mechanically extracted real bodies (generic, unbounded) + Kani/CBMC harnesses on the compiled crates (complete where loop-free and full-domain, otherwise bounded stand-ins)"
-for _p in ("C13", "C14", "C15"):
+for _p in ("C07", "C13", "C14", "C15"):
     CLAIMS[_p]["technique"] = VK_TECH
     CLAIMS[_p]["engine"] = "verus"
 for _p in ("C01", "C02", "C03"):
@@ -193,12 +197,26 @@ CLAIMS["C19"] = {
     "text": "Run-time part (Verus, all values / sizes / call orders the type-state permits, from any partial state): with_max_stack_size sets every stack's maximum and nothing else; "
             "with_<stack>_max_size sets exactly that stack's; with_<stack>_values / with_program put the supplied values on the named stack with the FIRST supplied on top (first "
             "program element executes first) or report Overflow when they do not fit; with_<stack>_input inserts name -> literal into the input map (a lemma shows declaration order "
-            "is irrelevant for distinct names); with_instruction_step_limit sets the limit; build returns exactly the assembled state. Compile-time part: nine illegal call sequences "
+            "is irrelevant for distinct names); with_instruction_step_limit sets the limit; build returns exactly the assembled state. Compile-time part: nine illegal call sequences on PushState and four on the second state type "
             "(build without sizes / program decision / step limit; values or program before sizes; resizing after values or after the program decision) are each rejected with E0599 on "
             "the expected method, and the legal orders type-check. Kani: the compiled builder on the real PushState (sizes for all usize, value loading, generated accessors address "
             "the field of their element type).",
-    "note": "Trusted: push_many's contract (checked bounded by the Kani harness c04_bulk), HashMap::insert as a map keyed by name equality, VariableName::from / PushInstruction::push_* as "
-            "uninterpreted constructors; value / program parameters instantiated at Vec<_>. Not covered: a second state struct with renamed stacks (E0119 makes #[push_state] unusable outside "
-            "the push crate; the hook of DESIGN §8 was not built), PushState::builder()'s Default state.",
+    "note": "Trusted: the std iterator stand-ins inside push_many (ExactSizeIterator::len, Vec::extend(iter.rev()), Option::is_none_or; push_many's own body is proved, 10_stack.vrs), "
+            "HashMap::insert as a map keyed by name equality, VariableName::from / PushInstruction::push_* as uninterpreted constructors; value / program parameters instantiated at Vec<_>. "
+            "'All state structs': besides PushState a second macro-generated state type (AltState, compiled under the hook cfg unhindered_ec_verif inside the push crate because E0119 makes "
+            "#[push_state] unusable outside it: bool / int stacks renamed in the builder, other field order, exec field named differently) is checked by five further snippets and three Kani "
+            "harnesses; the Verus contracts cover PushState's builder only. Not covered: PushState::builder()'s Default state.",
     "design_ref": "DESIGN.md §6 C19, §13",
 }
+
+CLAIMS["C16"]["text"] = ("Verus (unbounded): Weighted / WeightedPair::select, Then / And / Map / Identity / Constant / Mutate / Recombine::apply, Lexicase / Best / Worst / Random / Tournament::select and "
+    "PushState::run_to_completion are each proved EQUAL TO A SPEC FUNCTION of their arguments and the abstract stream state (resp. of the abstract machine state: program, inputs as a map "
+    "keyed by name, limits) — a function with such a contract cannot depend on thread-local or global randomness, hash-map order or time, and two runs from equal states agree on result "
+    "and final generator state. Kani (bounded): " + CLAIMS["C16"]["text"])
+CLAIMS["C16"]["technique"] = VK_TECH + "; self-composition harnesses with an entropy guard"
+CLAIMS["C10"]["text"] = ("Verus (all lengths / indices / ranges): Bitstring::crossover_gene and crossover_segment return Err and change nothing exactly when the index / range leaves "
+    "either genome, and otherwise swap exactly the addressed genes between the two genomes. Kani: " + CLAIMS["C10"]["text"])
+CLAIMS["C10"]["technique"] = VK_TECH
+CLAIMS["C06"]["text"] = ("Verus (unbounded): Weighted::select / WeightedPair::select return a member's selection, or exactly ZeroWeight, or the member's error wrapped to identify the member; "
+    "Lexicase::select returns population[i] for a surviving i or exactly EmptyPopulation / MissingTestCase. Kani: " + CLAIMS["C06"]["text"])
+CLAIMS["C06"]["technique"] = VK_TECH
